@@ -1,4 +1,4 @@
-open Scan_ext
+open Cost_ext
 let rec pos_of_int n = if n = 1 then XH else if n land 1 = 0 then XO (pos_of_int (n lsr 1)) else XI (pos_of_int (n lsr 1))
 let n_of_int n = if n = 0 then N0 else Npos (pos_of_int n)
 let rec int_of_nat = function O -> 0 | S n -> 1 + int_of_nat n
